@@ -7,10 +7,32 @@ use serde_json::{json, Value};
 
 use crate::{util::*, vec::diff_json};
 
-fn diff_of(d: &Value) -> VectorDiff<Elem> {
+/// The same contents in different internal shapes of imbl's Vector:
+/// 0 collected, 1 pushed to the front in reverse order, 2 built 70 items longer and popped from the front.
+fn build(vals: impl DoubleEndedIterator<Item = Elem>, b: i64) -> Vector<Elem> {
+    match b {
+        1 => {
+            let mut v = Vector::new();
+            for e in vals.rev() {
+                v.push_front(e);
+            }
+            v
+        }
+        2 => {
+            let mut v: Vector<Elem> = (0..70).map(Elem::new).chain(vals).collect();
+            for _ in 0..70 {
+                v.pop_front();
+            }
+            v
+        }
+        _ => vals.collect(),
+    }
+}
+
+fn diff_of(d: &Value, b: i64) -> VectorDiff<Elem> {
     let i = geti(d, "i") as usize;
     let v = geti(d, "v");
-    let vs = || -> Vector<Elem> { getvs(d, "vs").into_iter().map(Elem::new).collect() };
+    let vs = || -> Vector<Elem> { build(getvs(d, "vs").into_iter().map(Elem::new), b) };
     match gets(d, "k") {
         "Append" => VectorDiff::Append { values: vs() },
         "Clear" => VectorDiff::Clear,
@@ -45,15 +67,16 @@ pub fn run(path: &str, out: &str) {
             let s: Vec<i64> = getvs(&c, "s");
             let f = geti(&c, "f");
             let d = &c["d"];
+            let b = c.get("b").and_then(|x| x.as_i64()).unwrap_or(0);
             // apply(d, s)
-            let mut v1: Vector<Elem> = s.iter().map(|x| Elem::new(*x)).collect();
-            let r1 = catch(|| diff_of(d).apply(&mut v1));
+            let mut v1: Vector<Elem> = build(s.iter().map(|x| Elem::new(*x)), b);
+            let r1 = catch(|| diff_of(d, b).apply(&mut v1));
             // map(d, f), then apply to map(s, f)
-            let md = catch(|| diff_of(d).map(mapf(f)));
+            let md = catch(|| diff_of(d, b).map(mapf(f)));
             let (mdj, mres, mpanic) = match md {
                 Ok(md) => {
                     let mdj = diff_json(&md);
-                    let mut v2: Vector<Elem> = s.iter().map(|x| Elem::new(*x)).map(mapf(f)).collect();
+                    let mut v2: Vector<Elem> = build(s.iter().map(|x| Elem::new(*x)).map(mapf(f)), b);
                     let r2 = catch(|| md.apply(&mut v2));
                     (mdj, if r2.is_ok() { seq_json(v2.iter()) } else { json!([]) }, if r2.is_ok() { 0 } else { 1 })
                 }
